@@ -15,21 +15,21 @@ Three kinds of statements:
   `reads_only_resolved`, `baseline_ok`) – the same lines the real server answers in the
   differential replay.
 
-FULL STATEMENTS THAT ARE FALSE OF THE PINNED CODE (kept, not weakened silently):
+The full statements hold of the current tree:
 
-  foreign_denied_full :  every foreign combination is denied
-  frame_full          :  every request leaves every project outside its authority unchanged
-  guards_present_full :  every lookup of a Yorkie handler receives the project id
+  foreign_denied      :  every foreign combination is denied
+  victim_unchanged    :  every request leaves every project outside its authority unchanged
+  guards_present_*    :  every lookup of a handler receives the project id (or is a lookup by a
+                         global id immediately scoped to the project: `check:ProjectID`,
+                         `EnsureSessionIn`)
 
-They fail exactly where a handler looks a session up by its bare id (`Channel.Detach`,
-`Channel.Refresh`; see `*_witness`), so each is proved as `…` with the explicit decidable
-side condition `¬ leaky …` plus a witness by evaluation.
+They were false of the pinned tree at three lookups by bare id, found by this check and
+repaired in /repo; the table models the repaired handlers, and the old behaviour is documented
+by witness theorems about clearly named OLD variants of the handlers:
 
-A third such lookup – `YorkieService.GetRevision` via `revisions.Get(revisionID)` – was
-repaired by /repo commit ddb0dfd3 (the handler now compares `revision.ProjectID` / `DocID`
-with the resolved project / document). The table models the repaired handler;
-`getRevision_fixed_witness` documents the old behaviour on the named variant
-`Access.oldGetRevision`.
+  ddb0dfd3  GetRevision (revisions.Get(revisionID))            `getRevision_fixed_witness`   on `Access.oldGetRevision`
+  3821028d  DetachChannel / RefreshChannel (Channel.Detach /   `sessionScope_fixed_witness`  on `Access.oldDetachChannel`,
+            Channel.Refresh(sessionID))                                                       `Access.oldRefreshChannel`
 -/
 import YorkieModel.Model.Access
 import YorkieModel.Lemmas.Access
@@ -75,23 +75,31 @@ def exemptCalls : List String :=
    "converter.FromProject", "s.backend.ClusterClient", "database.NewMemberRole", "s.backend.BroadcastCacheInvalidation",
    "users.SignUp", "users.IsCorrectPassword", "users.DeleteAccountByName", "users.ChangePassword", "check:ProjectID"]
 
-/-- The code's lookups by bare id that are NOT followed by a project comparison (the finding
-c13-session-global): (method, call). -/
-def bareIdLookups : List (String × String) :=
-  [("DetachChannel", "s.backend.Channel.Detach"), ("RefreshChannel", "s.backend.Channel.Refresh")]
+/-- Lookups by bare id that are neither followed by a project comparison nor preceded by a
+project-keyed scope check: none since /repo 3821028d. -/
+def bareIdLookups : List (String × String) := []
+
+/-- calls that act on a channel session by its (global) id -/
+def sessionActs : List String := ["s.backend.Channel.Detach", "s.backend.Channel.Refresh"]
+
+def keyedCall (method : String) (c : String × Bool × Bool) : Bool :=
+  exemptCalls.contains c.1 || c.2.1 || bareIdLookups.contains (method, c.1)
 
 /-- every data call of a Yorkie / cluster handler receives an argument derived from the
-project; a revision looked up by its bare id is immediately followed by the comparison of its
-`ProjectID` with the project (GetRevision since ddb0dfd3) -/
+project. Two kinds of lookups by a global id are accepted only when scoped at once:
+a revision fetched by its bare id is immediately followed by the comparison of its
+`ProjectID` with the project (GetRevision since ddb0dfd3); `Channel.Detach` / `Channel.Refresh`
+by bare session id are immediately preceded by `Channel.EnsureSessionIn` keyed by the project
+(DetachChannel / RefreshChannel since 3821028d). -/
 def keyedByProject (method : String) : List (String × Bool × Bool) → Bool
   | [] => true
-  | c :: rest =>
-    (if c.1 = "s.backend.DB.FindRevisionInfoByID" then
-        (match rest with
-         | n :: _ => n.1 = "check:ProjectID" && n.2.1
-         | [] => false)
-      else exemptCalls.contains c.1 || c.2.1 || bareIdLookups.contains (method, c.1))
-    && keyedByProject method rest
+  | [c] => c.1 ≠ "s.backend.DB.FindRevisionInfoByID" && !sessionActs.contains c.1 && keyedCall method c
+  | c :: n :: rest =>
+    if c.1 = "s.backend.DB.FindRevisionInfoByID" then
+      n.1 = "check:ProjectID" && n.2.1 && keyedByProject method (n :: rest)
+    else if c.1 = "s.backend.Channel.EnsureSessionIn" && c.2.1 && sessionActs.contains n.1 then
+      keyedByProject method rest
+    else !sessionActs.contains c.1 && keyedCall method c && keyedByProject method (n :: rest)
 
 /-- admin: every data call receives the project or the authenticated user; a lookup by bare
 revision id is immediately followed by the comparison of its `ProjectID` with the project -/
@@ -140,6 +148,7 @@ def Guard.calls : Guard → List String
   | .revisionOfProject => ["revisions.Restore", "check:ProjectID"]
   | .revisionGlobal => ["revisions.Get"]
   | .sessionGlobal => ["s.backend.Channel.Detach", "s.backend.Channel.Refresh"]
+  | .sessionOfChannel => ["s.backend.Channel.EnsureSessionIn"]
   | .docRemoved => ["packs.Purge"]
   | .projectAndRole => ["projects.ProjectAndRole"]
   | .permissionById => ["projects.UpdateProject", "projects.RotateProjectKeys"]
@@ -183,15 +192,23 @@ theorem handlers_extracted :
 /-- Yorkie service: every handler takes the project from the request context (put there by
 the interceptor from the API key), calls `auth.VerifyAccess`, and every lookup / write it
 makes receives that project (a revision fetched by bare id is compared with the project at
-once) – except the listed lookups by bare session id (`bareIdLookups`). -/
+once; a session is acted on by bare id only right after `EnsureSessionIn` keyed by the
+project) – without exception (`bareIdLookups = []`). -/
 theorem guards_present_yorkie :
     ∀ h ∈ Rpc.handlers, h.1 = "YorkieService" →
       h.2.2.any (fun c => c.1 = "projects.From") ∧ h.2.2.any (fun c => c.1 = "auth.VerifyAccess") ∧
       keyedByProject h.2.1 h.2.2 = true := by decide +kernel
 
-/-- `guards_present_full` is false: these calls take a bare id (no project). -/
-theorem guards_present_yorkie_witness :
-    ∀ b ∈ bareIdLookups, (b.2, false, false) ∈ callsOf .yorkie b.1 := by decide +kernel
+/-- non-vacuity of the session rule: both handlers do act on a session by bare id, each time
+directly after the project-keyed scope check -/
+theorem session_lookups_scoped :
+    inOrder [["s.backend.Channel.EnsureSessionIn"], ["s.backend.Channel.Detach"]]
+        ((callsOf .yorkie "DetachChannel").map (·.1)) = true ∧
+    inOrder [["s.backend.Channel.EnsureSessionIn"], ["s.backend.Channel.Refresh"]]
+        ((callsOf .yorkie "RefreshChannel").map (·.1)) = true ∧
+    ("s.backend.Channel.EnsureSessionIn", true, false) ∈ callsOf .yorkie "DetachChannel" ∧
+    ("s.backend.Channel.EnsureSessionIn", true, false) ∈ callsOf .yorkie "RefreshChannel" ∧
+    bareIdLookups = [] := by decide +kernel
 
 /-- Admin service: the documented public procedures read no principal; every other handler
 takes its principal from the context (user or project, set only by a successful
@@ -258,7 +275,7 @@ theorem frame_generic {ι σ ρ : Type} [DecidableEq ι] (p : ι) (h : σ → ρ
     (s p = s' p → (runAt p h s).1 = (runAt p h s').1 ∧ (runAt p h s).2 p = (runAt p h s').2 p) :=
   ⟨fun q hq => runAt_frame p h s q hq, fun hp => ⟨runAt_response p h s s' hp, runAt_own p h s s' hp⟩⟩
 
-/-- A request that is not answered `ok` writes nothing at all (every handler, also the leaky ones). -/
+/-- A request that is not answered `ok` writes nothing at all (every handler, also the old variants with a non-local effect). -/
 theorem denied_no_write (cfg : Cfg) (s : Store) (svc : Svc) (H : Handler) (c : Cred) (r : Req)
     (h : (execH cfg s svc H c r).1 ≠ .ok) : (execH cfg s svc H c r).2 = s := by
   unfold execH at h ⊢
@@ -384,22 +401,19 @@ def Guard.fields : Guard → List Field
   | .activeAttacher => [.attacher]
   | .docByRef | .attachedTo => [.docId]
   | .revisionOfProject | .revisionGlobal => [.rev]
-  | .sessionGlobal => [.session]
+  | .sessionGlobal | .sessionOfChannel => [.session]
   | .projectAndRole | .permissionById => [.project]
   | _ => []
 
 def consults (h : Handler) : List Field :=
   (if h.scope = .peer then [Field.project] else []) ++ h.guards.flatMap Guard.fields
 
-/-- the handler looks this field up without the project (the C13 findings) -/
-def leaky (h : Handler) (f : Field) : Bool :=
-  (f = .rev && h.guards.contains .revisionGlobal) || (f = .session && h.guards.contains .sessionGlobal)
-
-/-- exactly two procedures have a global guard or a non-local effect -/
+/-- No handler of the table has a global guard or a non-local effect any more (before the
+repairs ddb0dfd3 / 3821028d: GetRevision, DetachChannel, RefreshChannel). So `frame` and
+`response_local` with `reads ⊆ {target}` apply to every procedure. -/
 theorem leaks_exact :
     ∀ svc ∈ Svc.all, ∀ e ∈ handlersOf svc,
-      ((e.2.guards.all Guard.isLocal = false ∨ e.2.effect.isLocal = false) ↔
-        (svc = .yorkie ∧ e.1 ∈ ["DetachChannel", "RefreshChannel"])) := by decide
+      e.2.guards.all Guard.isLocal = true ∧ e.2.effect.isLocal = true := by decide
 
 /-- where `failed_precondition` can come from in `foreign_denied`: exactly the three Yorkie
 handlers that check the client's attachment table (`EnsureDocumentAttached` in
@@ -412,11 +426,10 @@ theorem attachedTo_exact :
       (e.2.guards.contains .attachedTo = true →
         e.2.guards = [.verifyAccess, .activeClient, .attachedTo, .docByRef]) := by decide
 
-/-- the request names, in a field the handler consults and does not leak, an object of a
-project outside the credential's authority -/
+/-- the request names, in a field the handler consults, an object of a project outside the
+credential's authority -/
 def foreignVia (auth : List Proj) (h : Handler) (r : Req) : Bool :=
   (consults h).any (fun f =>
-    !leaky h f &&
     match f.get r with
     | .of q => !auth.contains q
     | .ghost => false)
@@ -429,7 +442,7 @@ def kindMismatch (h : Handler) : Cred → Bool
 
 def strictDenial (d : Decision) : Bool := d = .notFound || d = .unauthenticated || d = .permissionDenied
 
-/-- `foreign_denied` (C13, with the side condition `¬ leaky` that `foreignVia` carries): for
+/-- `foreign_denied` (C13, full statement, no side condition): for
 every procedure of the model table (= the generated table, by `classification_*`), every
 configuration, credential kind and target kind: if the request names – in a field the handler
 consults – an object of a project outside the credential's authority, the decision is
@@ -445,14 +458,6 @@ theorem foreign_denied :
         (decideH cfg svc e.2 c t = .failedPrecondition ∧ e.2.guards.contains .attachedTo = true) ∨
         (decideH cfg svc e.2 c t = .crash ∧ kindMismatch e.2 c = true) := by decide +kernel
 
-/-- `foreign_denied_full` is false: the two session leaks answer `ok` to a foreign id (and
-`not_found` to an id that exists nowhere). -/
-theorem foreign_denied_witness :
-    decideReq {} .yorkie "DetachChannel" (.apiKey .A) (.session false) = .ok ∧
-    decideReq {} .yorkie "RefreshChannel" (.apiKey .A) (.session false) = .ok ∧
-    decideReq {} .yorkie "DetachChannel" (.apiKey .A) (.session true) = .notFound ∧
-    decideReq {} .yorkie "RefreshChannel" (.apiKey .A) (.session true) = .notFound := by decide
-
 /-- The defect repaired by /repo commit ddb0dfd3, stated about the old variant of the handler
 (`Access.oldGetRevision`: revision loaded by bare id): with A's key, client and document it
 answered `ok` to B's revision id and its decision depended on B's state; the handler of the
@@ -467,6 +472,31 @@ theorem getRevision_fixed_witness :
     (∃ H, handlerOf .yorkie "GetRevision" = some H ∧ H.guards.all Guard.isLocal = true ∧
       ∀ p ∈ reads {} .yorkie H (.apiKey .A) { rev := .of .B }, p = .A) := by
   refine ⟨by decide, by decide, by decide, by decide, by decide, by decide, _, rfl, by decide, by decide⟩
+
+/-- The defect repaired by /repo commit 3821028d, stated about the old variants of the
+handlers (`Access.oldDetachChannel`, `Access.oldRefreshChannel`: bare session id handed to
+`Channel.Detach` / `Channel.Refresh`): with A's key and client they answered `ok` to B's
+session id (`not_found` to an id that exists nowhere), the old DetachChannel removed B's
+session (`frame` false of it: its effect is not local); the handlers of the table answer
+`not_found` exactly as for an id that exists nowhere – also for a session of another channel
+of the own project – leave B unchanged, and still serve the own session. -/
+theorem sessionScope_fixed_witness :
+    decideH {} .yorkie oldDetachChannel (.apiKey .A) (.session false) = .ok ∧
+    decideH {} .yorkie oldDetachChannel (.apiKey .A) (.session true) = .notFound ∧
+    victimH {} .yorkie oldDetachChannel (.apiKey .A) (.session false) = true ∧
+    (execH {} world0 .yorkie oldDetachChannel (.apiKey .A) { session := .of .B }).2 .B ≠ world0 .B ∧
+    oldDetachChannel.effect.isLocal = false ∧
+    decideH {} .yorkie oldRefreshChannel (.apiKey .A) (.session false) = .ok ∧
+    decideH {} .yorkie oldRefreshChannel .none .own = .ok ∧
+    decideH {} .yorkie oldRefreshChannel (.apiKey .A) (.session true) = .notFound ∧
+    decideReq {} .yorkie "DetachChannel" (.apiKey .A) (.session false) = .notFound ∧
+    decideReq {} .yorkie "DetachChannel" (.apiKey .A) (.session true) = .notFound ∧
+    decideReq {} .yorkie "DetachChannel" (.apiKey .A) (.name false) = .notFound ∧
+    decideReq {} .yorkie "DetachChannel" (.apiKey .A) .own = .ok ∧
+    victimOf {} .yorkie "DetachChannel" (.apiKey .A) (.session false) = false ∧
+    decideReq {} .yorkie "RefreshChannel" (.apiKey .A) (.session false) = .notFound ∧
+    decideReq {} .yorkie "RefreshChannel" .none .own = .notFound ∧
+    decideReq {} .yorkie "RefreshChannel" (.apiKey .A) .own = .ok := by decide
 
 def validCred : Cred → Bool
   | .apiKey _ | .token _ | .secret _ | .clusterSecret => true
@@ -493,14 +523,14 @@ def twinOf : Target → Option (Target × Field)
 
 /-- Existence of a foreign object is not observable: when `B` is outside the credential's
 authority, a request naming `B`'s client / document / revision / session / project id is
-decided exactly like the same request with an id that exists nowhere – except at the leaks.
+decided exactly like the same request with an id that exists nowhere – without exception.
 Names (document / channel key, schema name) that only `B` uses are decided like names nobody
 uses, without exception. -/
 theorem existence_hidden :
     ∀ cfg ∈ cfgs, ∀ svc ∈ Svc.all, ∀ e ∈ handlersOf svc, ∀ c ∈ credsOf svc,
       (authority cfg (worldFor e.2) svc e.2 c).contains .B = false →
         decideH cfg svc e.2 c (.name false) = decideH cfg svc e.2 c (.name true) ∧
-        ∀ t ∈ Target.all, ∀ tw ∈ twinOf t, leaky e.2 tw.2 = false →
+        ∀ t ∈ Target.all, ∀ tw ∈ twinOf t,
           decideH cfg svc e.2 c t = decideH cfg svc e.2 c tw.1 := by decide +kernel
 
 /-- a request that is answered `ok` has resolved to a project of its credential's authority -/
@@ -516,13 +546,14 @@ theorem writes_within_authority :
     ∀ cfg ∈ cfgs, ∀ svc ∈ Svc.all, ∀ e ∈ handlersOf svc, ∀ c ∈ credsOf svc, ∀ t ∈ Target.all,
       decideH cfg svc e.2 c t = .ok → targetInAuthority cfg svc e.2 c t = true := by decide +kernel
 
-/-- `frame` on the matrix (derived from `frame`, `denied_no_write` and
-`writes_within_authority`): no request changes a project outside its credential's
-authority – except `DetachChannel`, whose effect is not local. -/
+/-- `frame` on the matrix, full statement (derived from `frame`, `denied_no_write`,
+`leaks_exact` and `writes_within_authority`): no request changes a project outside its
+credential's authority. -/
 theorem victim_unchanged :
     ∀ cfg ∈ cfgs, ∀ svc ∈ Svc.all, ∀ e ∈ handlersOf svc, ∀ c ∈ credsOf svc, ∀ t ∈ Target.all,
-      e.2.effect.isLocal = true → victimH cfg svc e.2 c t = false := by
-  intro cfg hcfg svc hsvc e he c hc t ht hl
+      victimH cfg svc e.2 c t = false := by
+  intro cfg hcfg svc hsvc e he c hc t ht
+  have hl := (leaks_exact svc hsvc e he).2
   have hw := writes_within_authority cfg hcfg svc hsvc e he c hc t ht
   unfold victimH victimChanged
   simp only [List.any_eq_false]
@@ -543,17 +574,11 @@ theorem victim_unchanged :
     rw [denied_no_write cfg (worldFor e.2) svc e.2 c (mkReq e.2 t) this]
     simp
 
-/-- `frame_full` is false: A's key with B's session id removes B's session. -/
-theorem frame_witness :
-    victimOf {} .yorkie "DetachChannel" (.apiKey .A) (.session false) = true ∧
-    (exec {} world0 .yorkie "DetachChannel" (.apiKey .A) { session := .of .B }).2 .B ≠ world0 .B := by decide
-
-/-- On the matrix, the decision of every handler without a global guard depends on the state
-of the resolved project only (`response_local` with `reads ⊆ {target}`). -/
+/-- On the matrix, the decision of every handler depends on the state of the resolved project
+only (`response_local` with `reads ⊆ {target}`). -/
 theorem reads_only_resolved :
     ∀ cfg ∈ cfgs, ∀ svc ∈ Svc.all, ∀ e ∈ handlersOf svc, ∀ c ∈ credsOf svc, ∀ t ∈ Target.all,
-      e.2.guards.all Guard.isLocal = true →
-        ∀ p ∈ reads cfg svc e.2 c (mkReq e.2 t), target cfg svc e.2 c (mkReq e.2 t) = some p := by decide +kernel
+      ∀ p ∈ reads cfg svc e.2 c (mkReq e.2 t), target cfg svc e.2 c (mkReq e.2 t) = some p := by decide +kernel
 
 /-- Non-vacuity of the matrix: every procedure is answered `ok` for the own ids under some
 credential (the foreign requests differ from a succeeding request in one id only). -/
